@@ -189,7 +189,7 @@ fn c02_chunks_n5_s2() {
     kani::cover!(t[0] != t[2] && v[0] != v[4]);
 }
 
-// @unit class=bounded tier=thorough mem=light bound="n=4,s in {1,3,4,5},p=1,2 target columns,values symbolic u8" timeout=900 fns=linfa::dataset::iter::ChunksIter::next,linfa::dataset::DatasetBase::sample_chunks
+// @unit class=bounded tier=thorough mem=light bound="n=4,s in {1,2,3,5},p=1,2 target columns,values symbolic u8" timeout=900 fns=linfa::dataset::iter::ChunksIter::next,linfa::dataset::DatasetBase::sample_chunks
 #[kani::proof]
 #[kani::unwind(7)]
 #[kani::stub(alloc::fmt::format, fmt_stub)]
@@ -197,7 +197,7 @@ fn c02_chunks_n4_mt() {
     let v: [u8; 4] = kani::any();
     let t: [u8; 8] = kani::any();
     let ds = Dataset::new(Array2::from_shape_vec((4, 1), v.to_vec()).unwrap(), Array2::from_shape_vec((4, 2), t.to_vec()).unwrap());
-    let sizes: [usize; 4] = [1, 3, 4, 5];
+    let sizes: [usize; 4] = [1, 2, 3, 5];
     for k in 0..4 {
         let s = sizes[k];
         let mut c = 0usize;
